@@ -183,6 +183,27 @@ def c06():
     out.append(R("{% if one == onef %}1{% else %}0{% endif %}", {"output": "1"}, POOL_DATA))
     out.append(R("{% if one < two %}1{% else %}0{% endif %}{% if two <= two %}1{% else %}0{% endif %}{% if two > one %}1{% else %}0{% endif %}{% if one >= two %}1{% else %}0{% endif %}", {"output": "1110"}, POOL_DATA))
     out.append(R("{% if sa contains 'a' %}1{% else %}0{% endif %}{% if a12 contains 2 %}1{% else %}0{% endif %}{% if a12 contains 3 %}1{% else %}0{% endif %}{% if o contains 'k' %}1{% else %}0{% endif %}", {"output": "1101"}, POOL_DATA))
+    # contains: text containment / key membership / element equality (nil needles included); other kinds cannot contain
+    cdata = {"s": "abc", "es": "", "an": [1, None, "a"], "a1": [1, 2], "ea": [], "o": {"k": 1, "1": 2}, "n": None, "one": 1, "two": 2, "sa": "a", "sk": "k", "sz": "z"}
+    def _cref(a, b):
+        def txt(v):
+            return "" if v is None else ("true" if v is True else "false" if v is False else str(v))
+        if a is None:
+            return None
+        if isinstance(a, (str, int, float)) and not isinstance(a, bool):
+            return txt(b) in txt(a)
+        if isinstance(a, dict):
+            return (b is not None) and txt(b) in a
+        if isinstance(a, list):
+            return any((e is None and b is None) or (e is not None and b is not None and type(e) == type(b) and e == b) for e in a)
+        return None
+    for x in ("s", "es", "an", "a1", "ea", "o", "n", "one"):
+        for y in ("n", "one", "two", "sa", "sk", "sz", "es", "nil"):
+            exp = _cref(cdata[x], None if y == "nil" else cdata[y])
+            t = "{% if X contains Y %}1{% else %}0{% endif %}".replace("X", x).replace("Y", y)
+            out.append(R(t, {"error": True} if exp is None else {"output": "1" if exp else "0"}, cdata, "contains agrees with the value model"))
+            if exp is not None:
+                out.append(R("{% unless X contains Y %}1{% else %}0{% endunless %}".replace("X", x).replace("Y", y), {"output": "0" if exp else "1"}, cdata, "unless negates contains"))
     # truthiness: false only for nil and false (an undefined name counts as nil); 0, "", [] are true
     truth = {"nil": False, "t": True, "f": False, "zero": True, "one": True, "onef": True, "two": True, "half": True, "es": True,
              "sa": True, "sb": True, "s1": True, "ea": True, "a1": True, "a12": True, "o": True, "undefined_name": False}
@@ -232,6 +253,7 @@ def c07():
                    R("{{ a.size }}", {"output": "0"}, {"a": arr}))
     for s_ in ("", "abc", "héllo", "日本"):
         out.append(R("{{ s.size }}", {"output": str(len(s_))}, {"s": s_}, ".size of a string counts characters"))
+    out += c07_paths()
     out.append(R("{{ o.missing }}", {"error": True}, {"o": {"k": 1}}))
     out.append(R("{{ missing }}", {"error": True}, {}))
     out.append(R("{{ o['k'] }}{{ o[key] }}", {"output": "11"}, {"o": {"k": 1}, "key": "k"}))
@@ -243,6 +265,70 @@ def c07():
         out.append(R("{{ %s%s%s }}" % (q, body, q), {"output": body}, None, "string literal keeps inner quote characters"))
         out.append(R("{{ o[%s%s%s] }}" % (q, body, q), {"output": "member"}, {"o": dict([(body.strip("'\""), "neighbour"), (body, "member")])}, "bracket key is the literal's exact text"))
     out.append(R("{{ 1.5 }}|{{ -0.25 }}", {"output": "1.5|-0.25"}))
+    return out
+
+
+# ---- C07: every path of length 1..3 (thorough: 4) over nested data whose keys collide with the special names ----
+C07_DATA = {
+    "o": {"size": "own", "first": "F", "k": [10, 20, 30], "7": "seven", "n": {"size": {"width": 3}, "last": [1, 2]}, "e": {}},
+    "a": [{"size": 5, "v": [1, 2]}, [], "héllo", [[1], {"first": "f"}]],
+}
+_MISSING = object()
+
+
+def _c07_step(v, k):
+    """one path step by its meaning (the property's sentence); _MISSING when the step does not exist"""
+    if isinstance(v, list):
+        if isinstance(k, int):
+            return v[k] if -len(v) <= k < len(v) else _MISSING
+        if k == "first":
+            return v[0] if v else _MISSING
+        if k == "last":
+            return v[-1] if v else _MISSING
+        if k == "size":
+            return len(v)
+        return _MISSING
+    if isinstance(v, dict):
+        key = str(k)
+        if key in v:
+            return v[key]
+        return len(v) if key == "size" else _MISSING
+    if isinstance(v, str):
+        return len(v) if k == "size" else _MISSING
+    if isinstance(v, bool) or v is None:
+        return _MISSING
+    if isinstance(v, (int, float)):
+        return len(str(v)) if k == "size" else _MISSING
+    return _MISSING
+
+
+def c07_paths():
+    out = []
+    steps = ["size", "first", "last", "k", "7", "n", "v", "e", "width", "zz", -4, -3, -2, -1, 0, 1, 2, 3]
+    depth = 4 if THOROUGH else 3
+    def fmt(root, path):
+        t = root
+        for k in path:
+            t += ("[%d]" % k) if isinstance(k, int) else ("." + k if k.isalpha() else '["%s"]' % k)
+        return t
+    frontier = [(r, (), C07_DATA[r]) for r in ("o", "a")]
+    for d in range(1, depth + 1):
+        nxt = []
+        for root, path, val in frontier:
+            for k in steps:
+                r = _c07_step(val, k)
+                p2 = path + (k,)
+                src = fmt(root, p2)
+                if r is _MISSING:
+                    out.append(R("{{ %s }}" % src, {"error": True}, C07_DATA, "a step that does not exist is an error"))
+                elif isinstance(r, (list, dict)):
+                    out.append(R("{%% if %s %%}T{%% endif %%}" % src, {"output": "T"}, C07_DATA, "the step exists"))
+                    nxt.append((root, p2, r))
+                else:
+                    out.append(R("{{ %s }}" % src, {"output": str(r)}, C07_DATA, "path resolved step by step"))
+                    if isinstance(r, str) and d < depth:
+                        nxt.append((root, p2, r))
+        frontier = nxt
     return out
 
 
@@ -397,6 +483,10 @@ def c10():
         ("{% tablerow i in (1..3) cols:2 %}cell {{ i }}{% endtablerow %}", {}),
         ("{% for i in (1..3) %}{% ifchanged %}{{ i | divided_by: 2 }}{% endifchanged %}{% endfor %}", {}),
         ("{% capture c %}captured {{ x }}{% endcapture %}{% assign a = c | upcase %}{{ a }}{{ c }}", {"x": 1}),
+        # elements that write AFTER a child of theirs raised an interrupt (ifchanged flushes its buffer, tablerow closes the cell)
+        ("{% for i in (1..3) %}{% ifchanged %}{{ i }}{% continue %}{% endifchanged %}tail{% endfor %}.", {}),
+        ("{% for j in (1..2) %}{% tablerow i in (1..3) cols:2 %}c{{ i }}{% if i == 2 %}{% break %}{% endif %}{% endtablerow %}|{% endfor %}end", {}),
+        ("{% for i in (1..4) %}{% if i == 2 %}{% continue %}{% endif %}{% if i == 4 %}{% break %}{% endif %}<{{ i }}>{% endfor %}done", {}),
     ]
     out = [{"kind": "sink_faults", "template": t, "data": d} for t, d in tpls]
     out.append({"kind": "sink_faults", "template": "before {% include 'p' %} middle {% render 'p' %} after", "data": {"x": 1}, "partials": {"p": "partial text {{ x }}"}})
@@ -419,6 +509,10 @@ def c04():
     out.append(R("{% increment c %}{% increment c %}{{ c }}{% decrement c %}", {"output": "0121"}, {}))
     # capture binds exactly the text its body would have printed
     out.append(R("{% capture c %}a{{ 1 | plus: 1 }}b{% if true %}c{% endif %}{% endcapture %}[{{ c }}]", {"output": "[a2bc]"}))
+    # ... including the empty text: a capture that prints nothing still (re)binds its name
+    out.append(R("{% capture x %}{% endcapture %}[{{ x }}]", {"output": "[]"}, {"x": "d"}))
+    out.append(R("{% assign x = 'a' %}{% capture x %}{% if false %}no{% endif %}{% endcapture %}[{{ x }}]", {"output": "[]"}, {}))
+    out.append(R("{% for i in (1..2) %}{% capture acc %}{% if i == 1 %}one{% endif %}{% endcapture %}[{{ acc }}]{% endfor %}", {"output": "[one][]"}, {}))
     # include arguments shadow everything and are visible only inside
     out.append(R("{% assign v = 'outer' %}{% include 'p' v: 'arg' %}{{ v }}", {"output": "<arg>outer"}, {}, {"p": "<{{ v }}>"}))
     # a global assignment that shadows an object hides the object's members
@@ -522,6 +616,9 @@ def c04_programs():
                 blocks.append(("for", n, lo, hi, body))
         for body in bodies[:12]:
             blocks.append(("capture", n, [("text", "<")] + body + [("text", ">")]))
+        # captures whose body prints nothing still bind (the empty string), and bodies without surrounding text
+        for body in ([], [("assign_lit", "y", 2)], [("incr", "y")][:0] + [("assign_var", "y", "y")], [("print", "y")]):
+            blocks.append(("capture", n, list(body)))
     progs = []
     tails = [[("print", "x")], [("print", "y")], [("print", "x"), ("incr", "x"), ("print", "x")]]
     for pre in [[]] + [[a] for a in leaf]:
